@@ -466,6 +466,7 @@ def xlsx_books(world, placement, sheet_orders=None, styled=True,
             for x in others:
                 n_links += 1
                 if x is None:
+                    links['legacy'] = n_links
                     link = ExternalLink(externalBook=ExternalBook(
                         sheetNames=ExternalSheetNames(sheetName=['Old']),
                         id='rId1'))
